@@ -58,23 +58,25 @@ def check(ctx: Ctx) -> None:
 
 
 # ------------------------------------------------------------------ freshness
-def returns_fresh(ctx: Ctx, f: FunctionInfo, depth: int = 0) -> bool:
-    """Every return value of f depends on uuid.uuid4()."""
-    if depth > 5 or isinstance(f.node, ast.Lambda):
+def returns_fresh(ctx: Ctx, f: FunctionInfo, depth: int = 0, penv: Optional[Dict[str, bool]] = None) -> bool:
+    """Every return value of f depends on uuid.uuid4() (`penv`: the freshness of f's parameters at ONE call site - a
+    path-building helper `_metadata_file_path(name)` returns a fresh path exactly where it is handed a fresh name)."""
+    if depth > 12 or isinstance(f.node, ast.Lambda):
         return False
     g = ctx.cfg(f)
     rets = [n for n in g.nodes if n.kind == "return" and n.id in g.reachable()]
     if not rets:
         return False
-    return all(is_fresh(ctx, f, r.ast.value, r.id, depth + 1) for r in rets)  # type: ignore[union-attr]
+    return all(is_fresh(ctx, f, r.ast.value, r.id, depth + 1, penv) for r in rets)  # type: ignore[union-attr]
 
 
-def is_fresh(ctx: Ctx, f: FunctionInfo, e: Optional[ast.AST], at: int, depth: int = 0) -> bool:
+def is_fresh(ctx: Ctx, f: FunctionInfo, e: Optional[ast.AST], at: int, depth: int = 0,
+             penv: Optional[Dict[str, bool]] = None) -> bool:
     """Does the value of `e` at node `at` depend on a uuid4() call on every reaching definition chain?
     (may-depend over the slice is accepted only when EVERY reaching definition of each variable on the
     direct chain is fresh; implemented as: the slice contains a uuid4 call and no alternative definition of the
     top-level variable lacks one)."""
-    if e is None or depth > 6:
+    if e is None or depth > 12:
         return False
     g = ctx.cfg(f)
     rd = ctx.rd(f)
@@ -88,6 +90,17 @@ def is_fresh(ctx: Ctx, f: FunctionInfo, e: Optional[ast.AST], at: int, depth: in
                 cal = ctx.prog.resolve_call(sub, f)
                 if cal.kind == "func" and cal.funcs and all(returns_fresh(ctx, t, depth + 1) for t in cal.funcs):
                     return True
+                if cal.kind == "func" and cal.funcs and depth < 10:
+                    ok = True
+                    for t in cal.funcs:
+                        env = {}
+                        for pn in [q.name for q in t.params if q.name != t.self_name()]:
+                            arg = ctx.eff.bind_arg(sub, t, pn, isinstance(sub.func, ast.Attribute))
+                            env[pn] = arg is not None and is_fresh(ctx, f, arg, at, depth + 1, penv)
+                        if not any(env.values()) or not returns_fresh(ctx, t, depth + 1, env):
+                            ok = False
+                    if ok:
+                        return True
         return False
 
     if direct(e):
@@ -102,6 +115,10 @@ def is_fresh(ctx: Ctx, f: FunctionInfo, e: Optional[ast.AST], at: int, depth: in
         allfresh = True
         for d in defs:
             if d == g.entry:
+                if penv is not None and nm in penv:
+                    if not penv[nm]:
+                        allfresh = False
+                    continue
                 # parameter: every package call site must pass a fresh value
                 if not param_fresh(ctx, f, nm, depth + 1):
                     allfresh = False
@@ -109,7 +126,7 @@ def is_fresh(ctx: Ctx, f: FunctionInfo, e: Optional[ast.AST], at: int, depth: in
             dn = g.nodes[d]
             from ..flow import rhs_of
             rhs = rhs_of(dn, nm)
-            if rhs is None or not is_fresh(ctx, f, rhs, d, depth + 1):
+            if rhs is None or not is_fresh(ctx, f, rhs, d, depth + 1, penv):
                 allfresh = False
         if allfresh:
             return True
@@ -118,7 +135,7 @@ def is_fresh(ctx: Ctx, f: FunctionInfo, e: Optional[ast.AST], at: int, depth: in
 
 def param_fresh(ctx: Ctx, f: FunctionInfo, pname: str, depth: int) -> bool:
     sites = ctx.eff.call_sites.get(f.qname, [])
-    if not sites or depth > 6:
+    if not sites or depth > 12:
         return False
     for caller, n in sites:
         call = n.ast
